@@ -83,6 +83,37 @@ def run_expv(ctx: Ctx) -> None:
                         return True, ""
                     _guard(ctx, "T11x.expv", tag, fX, f"expv {tag}", th)
 
+    ctx.rule("T11x.dtype", "expv on a float64 (float32) field works in that precision throughout: the sampled field and the sampling "
+                           "positions handed to torch.grid_sample are of the field's dtype, no tensor computed in a narrower float type "
+                           "enters the arithmetic (type-promotion events of the dtype-tracking interpreter), and the result has the field's dtype")
+    for D, shape in ((2, (3, 4)), (3, (2, 3, 2))):
+        for ac in (True, False):
+            for dtype in (symt.DOUBLE, symt.FLOAT):
+                def thd(D=D, shape=shape, ac=ac, dtype=dtype):
+                    reset_relations()
+                    fresh_facts()
+                    it = make_interp(ctx)
+                    v0 = STensor.symbols("v", [1, D] + list(shape))
+                    v = STensor(list(v0.flat()), list(range(v0.numel())), list(v0.shape), dtype)
+                    del symt.GRID_SAMPLE_CALLS[:]
+                    del symt.PRECISION_EVENTS[:]
+                    out = it.call(fX, v, steps=2, align_corners=ac)
+                    calls = list(symt.GRID_SAMPLE_CALLS)
+                    if len(calls) != 2:
+                        raise AnalysisError(f"dtype scenario: {len(calls)} sampling calls")
+                    for k, c in enumerate(calls):
+                        if c["input"].dtype.name != dtype.name or c["grid"].dtype.name != dtype.name:
+                            return False, (f"call {k}: torch.grid_sample gets a {c['input'].dtype.name} field and {c['grid'].dtype.name} "
+                                           f"positions for a {dtype.name} velocity field")
+                    if symt.PRECISION_EVENTS:
+                        n, w = symt.PRECISION_EVENTS[0]
+                        return False, (f"a {n} tensor is mixed into {w} arithmetic ({len(symt.PRECISION_EVENTS)} promotion events): part of the "
+                                       f"computation on a {dtype.name} field is carried out in {n} precision")
+                    if out.dtype.name != dtype.name:
+                        return False, f"result dtype {out.dtype.name} for a {dtype.name} field"
+                    return True, ""
+                _guard(ctx, "T11x.dtype", f"D={D}:ac={ac}:{dtype.name}", fX, f"expv dtype={dtype.name} D={D} align_corners={ac}", thd)
+
 
 def _channels_last(t: STensor) -> STensor:
     nd = t.ndim
